@@ -17,6 +17,7 @@ pub mod c16;
 pub mod c18;
 pub mod c19;
 pub mod credprops;
+pub mod enumprops;
 pub mod simprops;
 
 pub fn run(prop: &str, ctx: &mut Ctx) -> Result<(), String> {
